@@ -460,3 +460,4 @@ def run_case(case):
 
 # (appended: sub-lattices added after the seeded waves; kept out of the original RULE text for readability)
 RULE = RULE + '; the depthwise class also with depth_multiplier 2; model programs also with frozen / statistics-only layers before unfolding and a second unfold after the folded kernels were replaced; populate histories'
+RULE = RULE + '; model programs also at a statistics point with conv bias and moving mean both near 3000 on a 2^-11 bias grid (unfold clause)'
